@@ -1075,7 +1075,8 @@ def r5_reservations(program, rep):
             # items: one store per pass, nothing else done to it
             raw = [F.term(r.value) for r in returns_of(f)
                    if r.value is not None][0]
-            sts = [x for x in stores(F) if x[2] == raw]
+            from ..terms import stores as _term_stores
+            sts = [x for x in _term_stores(F) if x[2] == raw]
             lp = sts[0][1]._parent if len(sts) == 1 else None
             other = [x for x in method_calls(F, ["update", "pop", "clear",
                                                  "setdefault", "popitem"])
